@@ -714,11 +714,21 @@ func (g *G) constExpr(k Kind, d int) Expr {
 		}
 		return g.intLit()
 	case KFloat:
-		switch g.pick(4, "cfl") {
+		switch g.pick(6, "cfl") {
 		case 0, 1:
 			return &Binary{Op: []string{"+", "-", "*", "/"}[g.pick(4, "cfop")], L: sub(KFloat), R: sub(KFloat)}
 		case 2:
 			return &Unary{Op: "-", X: sub(KFloat)}
+		case 3:
+			// NaN / infinities can only be written through conversions or overflow
+			if e, ok := g.bcall("float", StrLit([]string{"NaN", "inf", "-inf", "+Inf", "1e999", "0", "-0"}[g.pick(7, "fspecial")])); ok {
+				g.f("const-nan-inf")
+				return e
+			}
+		case 4:
+			g.f("const-nan-inf")
+			inf := Expr(&Binary{Op: "*", L: FloatLit(1e308), R: FloatLit(10)})
+			return []Expr{inf, &Binary{Op: "-", L: inf, R: inf}, &Binary{Op: "*", L: inf, R: FloatLit(0)}, &Unary{Op: "-", X: inf}}[g.pick(4, "infexpr")]
 		}
 		return g.floatLit()
 	case KStr:
